@@ -117,7 +117,7 @@ impl Prop for C02 {
     type Case = PlanCase;
     fn id(&self) -> &'static str { "C02" }
     fn expected_counters(&self) -> Vec<&'static str> { vec!["fault.statistics_fresh", "fault.statistics_stale", "fault.statistics_empty", "fault.statistics_adversarial", "fault.plan_all_bind_joins", "fault.plan_all_hash_joins", "fault.plan_all_nested_loop_joins", "fault.plan_mixed_joins", "fault.plan_scan_kind_swapped", "fault.bgp_permuted", "probe.intermediate_result_over_64_rows"] }
-    fn budget(&self, tier: Tier) -> Budget { match tier { Tier::Quick => Budget { runs: 3000, wall_s: 60, recheck: 20 }, Tier::Thorough => Budget { runs: 150_000, wall_s: 1200, recheck: 60 } } }
+    fn budget(&self, tier: Tier) -> Budget { match tier { Tier::Quick => Budget { runs: 3000, wall_s: 60, recheck: 20 }, Tier::Thorough => Budget { runs: 150_000, wall_s: 1000, recheck: 60 } } }
     fn hash_seed(&self, c: &PlanCase) -> u64 { c.hash_seed }
     fn gen(&self, seed: u64, _i: u64, tier: Tier) -> PlanCase {
         let mut r = Rng::sub(seed, "workload"); let mut cfg = Rng::sub(seed, "swarm"); let mut vr = Rng::sub(seed, "variants");
